@@ -220,6 +220,43 @@ def run(R):
                     drops = drops or True
         R.ob("C04-R7", "fast-path-drops-default", "the fully bound fast path excludes GraphId::Default", drops, where=qn.where())
 
+    # ---- R8 merged graphs: an element is dropped only as a duplicate
+    R.rule("C04-R8", "the merged read path is the union of its source graphs: every quad that query_graph returns for a source graph reaches the "
+                     "result, except that a triple already emitted is not emitted again. Whether an element is kept depends on that element and on "
+                     "what was emitted before - never on another read of the index (which graphs else hold the triple, which graph is the "
+                     "smallest owner): such a test looks at graphs outside the source list")
+    qm = R.body("C04-R8", "DatasetIndex::query_merged_graphs")
+    if qm is not None:
+        R.saw(qm)
+        fam = prog.family(qm.key)
+        index_reads = ("graphs_for_triple", "contains_quad", "contains_triple", "graph_exists", "named_graphs", "all_quads", "query_default", "query_named_graphs")
+        extra = [(x, c) for x in fam for c in x.calls() if c.name() in index_reads]
+        R.ob("C04-R8", "no-other-index-read", "query_merged_graphs reads the index only through query_graph on its source graphs (other reads: %s)"
+             % sorted({c.name() for x, c in extra}), not extra, where=qm.where(extra[0][1].ln if extra else None),
+             detail=None if not extra else "the decision to keep a triple consults the whole index: a triple whose other owner is outside the source list disappears")
+        qg = [(x, c) for x in fam for c in x.calls() if c.name() == "query_graph"]
+        R.ob("C04-R8", "delegates", "query_merged_graphs reads graph by graph through query_graph (found %d call)" % len(qg), len(qg) >= 1, where=qm.where())
+        # pipeline form: only element-preserving adaptors and a set collect; loop form: a push skipped only after a failed seen-set insert
+        filt = [c.name() for x in fam for c in x.calls() if c.name() in ("filter", "filter_map", "take", "skip", "take_while", "skip_while", "step_by", "retain", "dedup_by_key", "truncate")]
+        R.ob("C04-R8", "no-filter", "no filtering or truncating adaptor on the way to the result (found %s)" % filt, not filt, where=qm.where())
+        for x in fam:
+            loops = x.loops()
+            items = loops.items() if isinstance(loops, dict) else loops
+            for h, blocks in items:
+                pushes = [c for c in x.calls() if c.bb in blocks and c.name() in ("push", "extend", "insert") and not any(c.bb in b2 for h2, b2 in items if h2 != h and h2 in blocks)]
+                pushes = [c for c in pushes if c.name() == "push"]
+                if not pushes:
+                    continue
+                bad = []
+                for bb, tgt, cd in P.skip_edges(x, h, blocks, {c.bb for c in pushes}):
+                    if cd.get("kind") == "call" and cd["call"].name() == "insert" and cd.get("truth") is False:
+                        continue        # already emitted
+                    if cd.get("kind") == "variant" and cd.get("variant") in ("None",) and "Option" in (cd.get("adt") or ""):
+                        continue        # iterator exhausted
+                    bad.append(cd.get("kind") + (":" + cd["call"].name() if cd.get("kind") == "call" else ""))
+                R.ob("C04-R8", "loop-skips-duplicates-only", "a loop of query_merged_graphs skips an element only because it was emitted before (other skips: %s)" % bad,
+                     not bad, where=x.where(pushes[0].ln))
+
     # ---- R5 rebuild
     r5(R)
 
